@@ -198,12 +198,15 @@ var ownOpRe = regexp.MustCompile(`^(Read|Write) at 0x[0-9a-f]+ by goroutine \d+:
 func defuseRaceStart(t string) string {
 	lines := strings.SplitAfter(t, "\n")
 	for i := 0; i+2 < len(lines); i++ {
-		if strings.TrimRight(lines[i], "\r\n") == "==================" && strings.TrimRight(lines[i+1], "\r\n") == "WARNING: DATA RACE" && ownOpRe.MatchString(strings.TrimRight(lines[i+2], "\n")) {
+		if strings.TrimRight(lines[i], "\r\n") == "==================" && strings.TrimRight(lines[i+1], "\r\n") == "WARNING: DATA RACE" && (ownOpRe.MatchString(strings.TrimRight(lines[i+2], "\n")) || ownOpRe.MatchString(strings.TrimRight(lines[i+2], "\r\n"))) {
 			lines[i+2] = "x" + lines[i+2]
 		}
 	}
 	return strings.Join(lines, "")
 }
+
+// DefuseRaceStart is defuseRaceStart for text built outside GenStream.
+func DefuseRaceStart(t string) string { return defuseRaceStart(t) }
 
 // Normalize applies the same junk post-processing as GenStream to a
 // hand-built stream.
